@@ -463,7 +463,7 @@ func RunC18(tier string, args []string) int {
 		n, _ := strconv.Atoi(args[3])
 		depth := 3
 		if wtier == "thorough" {
-			depth = 4
+			depth = 5
 		}
 		out := hWorkerOut{Outcomes: map[string]int{}}
 		vs := newViolSet()
